@@ -465,7 +465,7 @@ func ruleDEEPEQ(w *World, r *Report, pkgs ...string) {
 
 const ruleTABLEFILLText = "table construction covers the table: in the package initialisers of gf2p16 every loop that stores into a package-level table through its loop index runs that index from 0 to exactly the table's length (a bound one short leaves the last entry zero, and only one constant or one operand value ever shows it)"
 
-func ruleTABLEFILL(w *World, r *Report) {
+func ruleTABLEFILL(w *World, r *Report, floor int, tables ...string) {
 	r.rule("TABLEFILL", ruleTABLEFILLText)
 	initFns := w.initOnly()
 	n := 0
@@ -487,6 +487,17 @@ func ruleTABLEFILL(w *World, r *Report) {
 				alen, isArr := arrayLenOf(g.Type())
 				if !isArr {
 					continue
+				}
+				if len(tables) > 0 {
+					want := false
+					for _, t := range tables {
+						if t == g.Name() {
+							want = true
+						}
+					}
+					if !want {
+						continue
+					}
 				}
 				// index: loop phi (possibly converted)
 				idx := stripAllConv(ia.Index)
@@ -530,5 +541,5 @@ func ruleTABLEFILL(w *World, r *Report) {
 			}
 		}
 	}
-	r.floor("TABLEFILL", "index-filled tables in gf2p16 initialisers", n, 2)
+	r.floor("TABLEFILL", "index-filled tables in gf2p16 initialisers", n, floor)
 }
